@@ -7,5 +7,6 @@ CONSTANTS
   MaxLen = 4
   MaxTimeouts = 1
   MaxForged = 2
+  MaxFire = 1
 INVARIANTS GenInv Dump
 CHECK_DEADLOCK FALSE
